@@ -741,15 +741,67 @@ def path_table(repo, b, root=0, max_atoms=6):
     return rows
 
 
-def algebra_facts(asg):
+_PRED_FACTS = {}
+
+
+def predicate_facts(repo, cb):
+    """What a crate-local boolean helper of one operand guarantees when it answers true: the operand facts common to all of its
+    true-returning paths (`fn is_sparse(x) -> bool { x.c1.is_zero() && x.c2.c0.is_zero() }` → {zero x.c1, zero x.c2.c0}); None when
+    it cannot be read."""
+    key = cb.rec["path"]
+    if key in _PRED_FACTS:
+        return _PRED_FACTS[key]
+    _PRED_FACTS[key] = None
+    if (cb.rec.get("output") or "").strip() != "bool" or len(cb.rec.get("inputs") or []) != 1:
+        return None
+    try:
+        rows = path_table(repo, cb, max_atoms=6)
+    except Exception:
+        rows = None
+    if not rows:
+        return None
+    common = None
+    for asg, val, res in rows:
+        v = strip(val)
+        fs = set(algebra_facts(asg))
+        if v[0] == "const":
+            try:
+                truth = int(v[1].get("int", 0)) != 0
+            except Exception:
+                return None
+            if not truth:
+                continue
+        elif v[0] == "call" and v[1].name in ("is_zero", "is_one") and len(v[2]) == 1 and peel_param(v[2][0]) is not None:
+            fs.add(("zero" if v[1].name == "is_zero" else "one", peel_param(v[2][0])))     # the last conjunct, returned directly
+        else:
+            return None
+        if ("other",) in fs:
+            return None
+        common = fs if common is None else (common & fs)
+    _PRED_FACTS[key] = common
+    return common
+
+
+def algebra_facts(asg, repo=None):
     """What an assignment of branch atoms says about the operands: {('zero'|'one', (param, proj))}; plus 'other' when an
     atom it cannot read is true."""
     facts = set()
     for atom, val in asg.items():
-        if atom[0] == "bool" and isinstance(atom[1], tuple) and atom[1][0] == "call" and atom[1][1].name == "is_zero" and len(atom[1][2]) == 1:
+        if repo is not None and atom[0] == "bool" and isinstance(atom[1], tuple) and atom[1][0] == "call" and len(atom[1][2]) == 1 and atom[1][1].name not in ("is_zero", "is_one"):
+            cb = repo.F.bodies.get(atom[1][1].d)
+            k = peel_param(atom[1][2][0])
+            pf = predicate_facts(repo, cb) if cb is not None and k is not None else None
+            if pf is not None:
+                if val == 1:
+                    for kind, (pi, proj) in [f for f in pf if f[0] in ("zero", "one")]:
+                        facts.add((kind, (k[0], k[1] + tuple(proj))))
+                    if not pf:
+                        facts.add(("other",))
+                continue
+        if atom[0] == "bool" and isinstance(atom[1], tuple) and atom[1][0] == "call" and atom[1][1].name in ("is_zero", "is_one") and len(atom[1][2]) == 1:
             k = peel_param(atom[1][2][0])
             if val == 1 and k is not None:
-                facts.add(("zero", k))
+                facts.add(("zero" if atom[1][1].name == "is_zero" else "one", k))
             elif val == 1:
                 facts.add(("other",))
             continue
@@ -787,6 +839,10 @@ def classify_value(v):
         return ("arg",) + k
     if v[0] == "agg" and v[1] == "core::option::Option":
         return "NONE" if v[2] == "None" else ("SOME", classify_value(v[3][0]))
+    if v[0] == "call" and v[1].name in ("squared", "square") and len(v[2]) == 1:
+        k = peel_param(v[2][0])
+        if k is not None and not k[1]:
+            return ("squared", k[0])
     return None
 
 
@@ -808,6 +864,8 @@ def identity_ok(op, facts, vc):
     if op == "sub":
         return Z(2) and arg(1)
     if op == "mul":
+        if isinstance(vc, tuple) and vc and vc[0] == "squared":
+            return ("eq", (1, ()), (2, ())) in facts or Z(vc[1])
         return (Z(1) and (vc == "ZERO" or arg(1))) or (Z(2) and (vc == "ZERO" or arg(2))) or (O(1) and arg(2)) or (O(2) and arg(1))
     if op in ("neg", "double"):
         return Z(1) and (vc == "ZERO" or arg(1))
@@ -816,6 +874,71 @@ def identity_ok(op, facts, vc):
     if op == "normalize":
         return Z(1) and arg(1)
     return False
+
+
+ZERO_T, ONE_T = ("ZERO",), ("ONE",)
+_ABSORB = ("mul", "mul_inplace", "scale", "scale_fq", "mul_assign", "mul_1", "mul_015", "mul_by_fq", "mul_by_nonresidue")
+_ZERO_FIX = ("neg", "neg_inplace", "double", "triple", "squared", "square", "div2", "mul_by_nonresidue", "frobenius_map", "unitary_inverse", "conjugate")
+
+
+def specialise(repo, t, facts, depth=0):
+    """Normal form of a value term under operand facts {('zero'|'one', (param, proj))}: operands (and their components) known to be
+    zero / one are replaced and 0·x = 0, 1·x = x, 0 + x = x, x − 0 = x, −0 = 0, 2·0 = 0, 0² = 0 are applied; nothing else is
+    rewritten.  Two value terms with the same normal form under the facts of a path are equal on that path."""
+    t = strip(t)
+    if depth > 12:
+        return t
+    k = peel_param(t)
+    if k is not None:
+        for j in range(len(k[1]) + 1):
+            if ("zero", (k[0], k[1][:j])) in facts:
+                return ZERO_T
+        if ("one", k) in facts:
+            return ONE_T
+        return ("arg",) + k
+    if t[0] == "call":
+        nm = t[1].name
+        args = [specialise(repo, a, facts, depth + 1) for a in t[2]]
+        if nm in ("zero",) and not args:
+            return ZERO_T
+        if nm in ("one",) and not args:
+            return ONE_T
+        if nm in _ZERO_FIX and len(args) >= 1 and args[0] == ZERO_T:
+            return ZERO_T
+        if nm in _ABSORB and len(args) == 2:
+            if ZERO_T in args:
+                return ZERO_T
+            if nm in ("mul", "mul_inplace", "scale", "scale_fq") and ONE_T in args:
+                return args[1] if args[0] == ONE_T else args[0]
+        if nm in ("add", "add_inplace") and len(args) == 2 and ZERO_T in args:
+            return args[1] if args[0] == ZERO_T else args[0]
+        if nm in ("sub", "sub_inplace") and len(args) == 2 and args[1] == ZERO_T:
+            return args[0]
+        if nm in ("new",) and args and all(a == ZERO_T for a in args):
+            return ZERO_T
+        if nm in ("new",) and len(args) >= 2 and args[0] == ONE_T and all(a == ZERO_T for a in args[1:]):
+            return ONE_T
+        return ("call", nm, tuple(args))
+    if t[0] == "agg" and isinstance(t[1], str):
+        args = [specialise(repo, a, facts, depth + 1) for a in t[3]]
+        if t[1].startswith("crate::fields"):
+            if args and all(a == ZERO_T for a in args):
+                return ZERO_T
+            if len(args) >= 2 and args[0] == ONE_T and all(a == ZERO_T for a in args[1:]):
+                return ONE_T
+            # a tower value whose components are exactly the components of one operand is that operand
+            ks = [a for a in args if isinstance(a, tuple) and a and a[0] == "arg"]
+            if len(ks) == len(args) and args and all(a[1] == args[0][1] and a[2][:-1] == args[0][2][:-1] and a[2][-1:] == (i,) for i, a in enumerate(args)):
+                return ("arg", args[0][1], args[0][2][:-1])
+        return ("agg", t[1], t[2], tuple(args))
+    if t[0] == "phi":
+        vs = {specialise(repo, x, facts, depth + 1) for x in t[1]}
+        return vs.pop() if len(vs) == 1 else ("phi", tuple(sorted(map(repr, vs))))
+    return t
+
+
+def whole_arg(repo, k, nfields_of=None):
+    return ("arg",) + k
 
 
 def forwards(repo, b, main_pred, op, root=0):
@@ -844,6 +967,12 @@ def forwards(repo, b, main_pred, op, root=0):
             continue
         if identity_ok(op, facts, classify_value(val)):
             continue
+        # a shortcut that is the main formula specialised by what the path knows about the operands (0·x = 0, −0 = 0, …)
+        if facts and ("other",) not in facts:
+            mains = [v2 for a2, v2, r2 in rows if mp(v2)[0]]
+            fz = {f for f in facts if f[0] in ("zero", "one")}
+            if mains and fz and any(specialise(repo, m_, fz) == specialise(repo, val, fz) for m_ in mains):
+                continue
         return False, "on the path where %s it returns %s%s" % (sorted(facts) or "no operand test holds", show(val, maxdepth=3)[:120], ("; " + whyr) if whyr else "")
     if not main_seen:
         return False, "no path forwards to the operation"
